@@ -26,6 +26,8 @@ CONSTANTS
     MaxFaults,        \* injected call failures
     MaxCrashes,       \* crashes (each followed by a restart)
     MaxReopens,       \* clean restarts (worker dropped while idle)
+    MaxFmtFail,       \* emits of an event whose writer fails (front half of FileSet::emit)
+    FmtFails,         \* how such a writer fails: subset of {"empty", "partial"} (output before failing)
     Ticks,            \* clock steps before a call: subset of {"same","later","next","back"}
     RetryTicks,       \* clock steps before a retry call
     Phantoms,         \* bytes pushed and then cleared from the channel before the batch: e.g. {0, 3}
@@ -54,7 +56,7 @@ Init ==
     /\ \E mf \in MaxFilesSet, ms \in MaxSizeSet : o = ObsInit(mf, ms)
     /\ w = FreshWorker
     /\ \E r \in ReuseSet :
-         env = [cp |-> 1, cms |-> 0, nb |-> 0, nc |-> 0, nf |-> 0, ncr |-> 0, nro |-> 0,
+         env = [cp |-> 1, cms |-> 0, nb |-> 0, nc |-> 0, nf |-> 0, ncr |-> 0, nro |-> 0, nff |-> 0, ffk |-> "none",
                 nextEv |-> 1, ridUp |-> 5, ridDn |-> 4, alive |-> TRUE, reuse |-> r]
     /\ calls = <<>>
     /\ hist = <<>>
@@ -304,7 +306,20 @@ Reopen ==
     /\ hist' = Append(hist, [op |-> "restart"])
     /\ UNCHANGED calls
 
+\* FileSet::emit of an event whose writer fails (before or after part of its output): the
+\* event is discarded as a whole - nothing is handed to the channel, the worker and the
+\* files are unaffected, and so is every event formatted afterwards (same thread or not).
+\* Replayed only where the real emit runs (production run, harness c10_file_prod).
+FmtFail(kind) ==
+    /\ env.alive /\ w.pc = "idle" /\ o.rest = <<>>
+    /\ env.nff < MaxFmtFail /\ env.nc < MaxCalls /\ env.nb < MaxBatches
+    \* (the kind stays in the state so that both kinds keep their own histories)
+    /\ env' = [env EXCEPT !.nff = @ + 1, !.ffk = kind]
+    /\ hist' = Append(hist, [op |-> "fmtfail", kind |-> kind])
+    /\ UNCHANGED <<o, w, calls>>
+
 Next ==
+    \/ \E kind \in FmtFails : FmtFail(kind)
     \/ \E tick \in Ticks \cup RetryTicks, k \in 1..MaxEv, ph \in Phantoms : Begin(tick, k, ph)
     \/ MkDir \/ List \/ OpenEx \/ SyncDirReuse \/ FileLen \/ Decide \/ Remove \/ OpenNew \/ SyncDir
     \/ WriteSep \/ WriteEv \/ PFlush \/ PSync \/ Flush \/ Sync \/ End
@@ -343,7 +358,7 @@ FilesOut(ob) == {[n |-> n, syn |-> ob.files[n].syn, uns |-> ob.files[n].uns, ent
                     n \in DOMAIN ob.files}
 
 EmitReplay ==
-    (Emit /\ Len(hist') > Len(hist) /\ hist'[Len(hist')].op # "restart") =>
+    (Emit /\ Len(hist') > Len(hist) /\ hist'[Len(hist')].op \notin {"restart", "fmtfail"}) =>
         PrintT(<<"REPLAY", ToJson([maxFiles |-> o.maxFiles, maxSize |-> o.maxSize, reuse |-> env.reuse,
                                    hist |-> hist', files |-> FilesOut(o'), acked |-> o'.acked])>>)
 =============================================================================
